@@ -177,7 +177,7 @@ def program(draw, max_sessions=2, max_calls=3, max_objs=4, forms=None, names=Non
     sessions = []
     for _s in range(nsess):
         calls = []
-        for _c in range(draw(st.integers(0 if _s else 1, max_calls))):
+        for _c in range(draw(st.integers(0 if (_s or nsess > 1) else 1, max_calls))):
             objs = []
             used = set()
             for _o in range(draw(st.integers(0, max_objs))):
@@ -216,7 +216,8 @@ def program(draw, max_sessions=2, max_calls=3, max_objs=4, forms=None, names=Non
                 calls.append({'rejected': bad})
         sessions.append(calls)
     return {'version': draw(st.sampled_from([4712, 4713])), 'dest': dest, 'index': index, 'sessions': sessions,
-            'rewrite': draw(st.sampled_from([None, None, 'one_segment', 'segment_per_object']))}
+            'rewrite': draw(st.sampled_from([None, None, 'one_segment', 'segment_per_object'])),
+            'reuse_objects': draw(st.integers(0, 3)) == 0}
 
 
 # ----------------------------------------------------------------------------------------------
@@ -335,17 +336,50 @@ def expected_channel(form, values):
     return 'intlist', list(values)
 
 
-def build_objects(call):
+def build_objects(call, pool=None):
+    """nptdms objects for one write_segment call.  With a `pool` (dict), group and channel objects are RE-USED between calls,
+    as an acquisition loop would do: the same GroupObject / ChannelObject instance gets new names, data (in place when the
+    shape and dtype allow it) and properties before it is written again."""
     from nptdms import RootObject, GroupObject, ChannelObject
     objs = []
+    used = set()
     for o in call:
         pd = OrderedDict((n, prop_python_value(k, v)) for (n, k, v) in o.get('props') or [])
         if o['kind'] == 'root':
             objs.append(RootObject(pd))
         elif o['kind'] == 'group':
-            objs.append(GroupObject(o['group'], pd))
+            key = ('group', len([1 for u in used if u[0] == 'group']))
+            used.add(key)
+            if pool is not None and key in pool:
+                g = pool[key]
+                g.group = o['group']
+                g.properties = pd
+            else:
+                g = GroupObject(o['group'], pd)
+                if pool is not None:
+                    pool[key] = g
+            objs.append(g)
         else:
-            objs.append(ChannelObject(o['group'], o['channel'], channel_array(o['form'], o['values']), pd))
+            arr = channel_array(o['form'], o['values'])
+            key = ('channel', o['form'], len([1 for u in used if u[0] == 'channel' and u[1] == o['form']]))
+            used.add(key)
+            if pool is not None and key in pool:
+                ch = pool[key]
+                ch.group = o['group']
+                ch.channel = o['channel']
+                ch.properties = pd
+                new = ChannelObject(o['group'], o['channel'], arr, pd).data
+                old = ch.data
+                if (isinstance(old, np.ndarray) and isinstance(new, np.ndarray) and old.shape == new.shape
+                        and old.dtype == new.dtype and old.flags.writeable):
+                    old[...] = new              # same buffer, new contents
+                else:
+                    ch.data = new
+            else:
+                ch = ChannelObject(o['group'], o['channel'], arr, pd)
+                if pool is not None:
+                    pool[key] = ch
+            objs.append(ch)
     return objs
 
 
@@ -387,6 +421,7 @@ def run_program(prog, workdir):
     stream = io.BytesIO() if path is None else None
     istream = io.BytesIO() if prog['index'] == 'stream' else None
     first = True
+    pool = {} if prog.get('reuse_objects') else None
     for calls in prog['sessions']:
         if path is not None:
             w = TdmsWriter(path, mode='w' if first else 'a', version=prog['version'], index_file=bool(prog['index']))
@@ -405,7 +440,7 @@ def run_program(prog, workdir):
                     return {'accepted': False, 'error': RuntimeError('call expected to be rejected was accepted'),
                             'model': model}
                 try:
-                    objs = build_objects(call)
+                    objs = build_objects(call, pool)
                     w.write_segment(objs)
                 except Exception as e:      # noqa  a call the writer does not accept: program is outside the domain
                     return {'accepted': False, 'error': e, 'model': model}
